@@ -98,3 +98,44 @@ package btree
 //@   ensures #absent !found ==> (forall j int :: { s[j] } 0 <= j && j < index ==> kid(s[j]) < kid(item)) && (forall j int :: { s[j] } index <= j && j < len(s) ==> kid(item) < kid(s[j]))
 //@   ensures #complete (exists j int :: 0 <= j && j < len(s) && kid(s[j]) == kid(item)) ==> found
 //@   modifies
+//
+// ---- node-local steps ----
+// A node handed out by the free list behaves like a freshly allocated one: ASSUMED (the free list only ever holds
+// nodes that no tree references any more - an ownership argument over all trees sharing the list, outside this family).
+//@ func copyOnWriteContext.newNode
+//@   trusted free list: the node returned is referenced by nobody else, empty, with unshared storage, and owned by the context
+//@   requires c != nil
+//@   ensures n != nil && isfresh(n) && n.cow == c && len(n.items) == 0 && len(n.children) == 0 && (cap(n.items) == 0 || isfresh(n.items)) && (cap(n.children) == 0 || isfresh(n.children)) && nalloc() >= old(nalloc()) && allocated(n) && allocated(n.items) && allocated(n.children)
+//@   modifies region($alloc)
+//
+//@ pure shape(n *node) bool = n != nil && (len(n.children) == 0 || len(n.children) == len(n.items) + 1)
+// split(i): the node keeps items [0,i) (children [0,i]), the item at i is returned, a new node gets the rest in order
+//@ func node.split
+//@   requires shape(n) && allocated(n) && allocated(n.items) && allocated(n.children) && n.cow != nil && 0 <= i && i < len(n.items) && arrid(nilItems) != arrid(n.items) && arrid(nilChildren) != arrid(n.children)
+//@   ensures #median result0 == old(n.items[i])
+//@   ensures #left len(n.items) == i && forall j int :: { n.items[j] } 0 <= j && j < i ==> n.items[j] == old(n.items[j])
+//@   ensures #right result1 != nil && result1 != n && len(result1.items) == old(len(n.items)) - i - 1 && forall j int :: { result1.items[j] } 0 <= j && j < len(result1.items) ==> result1.items[j] == old(n.items[i+1+j])
+//@   ensures #leaf old(len(n.children)) == 0 ==> len(n.children) == 0 && len(result1.children) == 0
+//@   ensures #leftkids old(len(n.children)) > 0 ==> len(n.children) == i + 1 && forall j int :: { n.children[j] } 0 <= j && j <= i ==> n.children[j] == old(n.children[j])
+//@   ensures #rightkids old(len(n.children)) > 0 ==> len(result1.children) == old(len(n.children)) - i - 1 && forall j int :: { result1.children[j] } 0 <= j && j < len(result1.children) ==> result1.children[j] == old(n.children[i+1+j])
+//@   ensures #owner result1.cow == n.cow && shape(n) && shape(result1)
+//@   modifies region($alloc), node.cow, node.items, node.children, n.items[0:cap(n.items)], n.children[0:cap(n.children)]
+//
+// mutableFor: the node itself when the context owns it, otherwise a copy owned by the context with the same items and
+// children in the same order (copy-on-write: the original is not written)
+//@ func node.mutableFor
+//@   requires n != nil && cow != nil && allocated(n) && allocated(n.items) && allocated(n.children)
+//@   ensures #same old(n.cow) == cow ==> result == n
+//@   ensures #copy old(n.cow) != cow ==> result != n && isfresh(result) && result.cow == cow && (len(result.items) == 0 || isfresh(result.items)) && (len(result.children) == 0 || isfresh(result.children))
+//@   ensures #items len(result.items) == len(n.items) && forall j int :: { result.items[j] } 0 <= j && j < len(n.items) ==> result.items[j] == n.items[j]
+//@   ensures #children len(result.children) == len(n.children) && forall j int :: { result.children[j] } 0 <= j && j < len(n.children) ==> result.children[j] == n.children[j]
+//@   ensures #original n.cow == old(n.cow) && n.items == old(n.items) && n.children == old(n.children) && (forall j int :: { n.items[j] } 0 <= j && j < len(n.items) ==> n.items[j] == old(n.items[j])) && (forall j int :: { n.children[j] } 0 <= j && j < len(n.children) ==> n.children[j] == old(n.children[j]))
+//@   modifies region($alloc)
+//
+// mutableChild(i): child i becomes a node owned by n's context with the same content; nothing else of n changes
+//@ func node.mutableChild
+//@   requires n != nil && n.cow != nil && 0 <= i && i < len(n.children) && n.children[i] != nil && allocated(n) && allocated(n.children) && allocated(n.children[i]) && allocated(n.children[i].items) && allocated(n.children[i].children) && arrid(n.children) != arrid(n.children[i].children)
+//@   ensures #installed result != nil && n.children[i] == result && result.cow == n.cow && (old(n.children[i].cow) == n.cow ==> result == old(n.children[i])) && (old(n.children[i].cow) != n.cow ==> isfresh(result))
+//@   ensures #content len(result.items) == old(len(n.children[i].items)) && (forall j int :: { result.items[j] } 0 <= j && j < len(result.items) ==> result.items[j] == old(n.children[i].items[j])) && len(result.children) == old(len(n.children[i].children)) && (forall j int :: { result.children[j] } 0 <= j && j < len(result.children) ==> result.children[j] == old(n.children[i].children[j]))
+//@   ensures #others len(n.children) == old(len(n.children)) && (forall j int :: { n.children[j] } 0 <= j && j < len(n.children) && j != i ==> n.children[j] == old(n.children[j])) && n.items == old(n.items) && n.cow == old(n.cow)
+//@   modifies region($alloc), n.children[i:i+1]
